@@ -3,6 +3,7 @@ CONSTANTS Channels = {1, 2}
           MaxPays = 2
           RERANDOMIZE = TRUE
           LEAK = FALSE
+          KEEPNONCE = FALSE
 PROPERTY NoReuse
 INVARIANT NoSecretLeak
 CHECK_DEADLOCK FALSE
